@@ -66,9 +66,11 @@ def cases(tier, salts):
         if salt == 0 or tier == "thorough":
             for reg in ("l1", "l2"):
                 for lam in (1e-2, 1.0):
-                    for bnd in (False, True):
+                    # constraint kind: none / bounds / general projections (each is a different branch of the step routine);
+                    # start at an ordinary point or at the origin (a kink of both regularisers)
+                    for bnd in (False, True, "proj", "proj_origin", "origin"):
                         for pert in range(6 if tier == "quick" else 12):
-                            for delta in (1e-3, 0.3, 3.0):
+                            for delta in (1e-3, 0.1, 0.3, 3.0):
                                 for mi in (3, 40):
                                     out.append({"k": "regstep", "reg": reg, "lam": lam, "bounds": bnd, "pert": pert,
                                                 "delta": delta, "max_iters": mi, "salt": salt})
@@ -210,8 +212,12 @@ def _controller(reg, lam, bnd, salt):
     key = (reg, lam, bnd, salt)
     cfg = {"prob": {"f": "lin", "A": [[1.0, 0.5], [0.2, 1.0], [0.3, 0.3]], "b": [0.1, -0.1, 0.2], "salt": salt},
            "x0": [0.5, 0.6], "reg": {"r": reg, "lam": lam}, "maxfun": 3, "rhobeg": 0.1, "memo": True}
-    if bnd:
+    if bnd is True:
         cfg["lo"], cfg["hi"] = [0.2, 0.25], [2.0, 2.0]
+    if bnd in ("proj", "proj_origin"):
+        cfg["sets"] = [{"t": "ball", "c": [0.0, 0.0], "r": 2.0}]
+    if bnd in ("proj_origin", "origin"):
+        cfg["x0"] = [0.0, 0.0]
     ex = solvex.Execution(cfg).run()
     if not ex.controllers or ex.controllers[0].model.npt() != 3:
         raise common.HarnessError("could not build a controller for %r: %s" % (key, ex.describe()))
@@ -240,7 +246,7 @@ def _check_regstep(case):
     xo = m.xopt(abs_coordinates=True)
     pred = ctl.h(remove_scaling(xo, ctl.scaling_changes), *ctl.argsh) - model_value(gopt, H, d, xo, ctl.h, ctl.argsh, ctl.scaling_changes)
     v = []
-    tags = ["regstep"]
+    tags = ["regstep", "regstep:%s" % case["bounds"]]
     if not pred >= 0.0:
         v.append(("regstep_pred_reduction", "predicted reduction %.6g < 0 for the step handed to the main loop (d=%s)" % (pred, d.tolist())))
     if np.linalg.norm(d) > ctl.delta * (1 + 1e-8):
@@ -249,6 +255,7 @@ def _check_regstep(case):
         tags.append("regstep_moves")
     else:
         tags.append("regstep_zero")
+        tags.append("regstep_zero:" + ("proj" if str(case["bounds"]).startswith("proj") else "bounds" if case["bounds"] is True else "none"))
     return v, tags
 
 
@@ -273,7 +280,7 @@ def run(report, tier, seed):
     tags = gridx.run_grid(report, MOD, cs, classify=classify, chunk=60)
     cov = report.coverage
     need = ["geom_moves", "geom_on_ball", "ctrsbox_pgd_on_ball", "ctrsbox_geometry_on_ball", "ctrsbox_sfista_moves",
-            "regstep_moves", "regstep_zero"]
+            "regstep_moves", "regstep_zero", "regstep_zero:proj", "regstep_zero:bounds", "regstep_zero:none"]
     missing = [t for t in need if not tags.get(t)]
     if missing:
         raise common.HarnessError("C13 grid is vacuous: %s never occurred" % missing)
